@@ -1,3 +1,418 @@
-import PybtexModel.Model.Basic
+/-
+C16 — every problem is a renderable pybtex error, the same in all reporting modes.
+
+Property theorems only.  Model of the code: `Model/Errors.lean` (`pybtex/errors.py` as a state
+machine, the rendering of every error class, `CommandLine.__call__`); reference semantics a
+reader has to agree with: `Spec/Reporting.lean`; helper lemmas: `Lemmas/Errors.lean`.
+
+The model follows the code AFTER proposed_fixes/C16-1.diff (`capture()` restores the previous
+value), C16-2.diff (`PluginNotFound.__init__` without `assert`), C20-1/2.diff (`AuxDataError`)
+and the C11 fix of `NamePart.__init__` (format letters lower-cased).
+-/
+import PybtexModel.Lemmas.Errors
+
 namespace Pybtex.Props
+open Pybtex Pybtex.Errors
+variable {E : Type}
+
+/-! ## rendering -/
+
+/-- `format_error` is defined for every error value of every class (for `TokenRequired`: built
+from a parser state in which `get_error_context` does not index out of range) and has the shape
+context lines ++ [prefix ++ str(error)], every line prefixed by the file name when there is one;
+`format_error` itself is those lines joined by newlines. -/
+theorem C16_render_total (e : Err) (hwf : e.WF = true) (pre : Str) :
+    ∃ ctx : List Str,
+      e.contextLines = .ok ctx ∧
+      formatErrorLines e pre = .ok ((ctx ++ [pre ++ e.str]).map (withFile e.getFilename)) ∧
+      formatError e pre = .ok (joinWith ['\n'] ((ctx ++ [pre ++ e.str]).map (withFile e.getFilename))) := by
+  obtain ⟨ctx, h⟩ := Errors.contextLines_ok e hwf
+  refine ⟨ctx, h, ?_, ?_⟩
+  · simp [formatErrorLines, h, bind, Except.bind, pure, Except.pure]
+  · simp [formatError, formatErrorLines, h, bind, Except.bind, pure, Except.pure, Except.map]
+
+/-- a `TokenRequired` from a real-looking parser state satisfies the hypothesis and renders with
+the offending line, the marker under the error column, and the located message -/
+theorem C16_render_total_nonvacuous :
+    (Err.tokenRequired "'='".toList (some "a.bib".toList)
+      { kind := .lowLevel, text := "@article{k,\n  title x\n}\n".toList, start := some 0,
+        lineno := some 2, pos := 20 }).WF = true ∧
+    formatErrorLines (Err.tokenRequired "'='".toList (some "a.bib".toList)
+      { kind := .lowLevel, text := "@article{k,\n  title x\n}\n".toList, start := some 0,
+        lineno := some 2, pos := 20 }) errorPrefix
+      = .ok ["a.bib: @article{k,".toList, "a.bib:   title x".toList, "a.bib:        ^^^".toList,
+             "a.bib: ERROR: syntax error in line 2: '=' expected".toList] := by
+  decide +kernel
+
+/-- only `TokenRequired` carries a condition: every other class renders unconditionally -/
+theorem C16_render_total_other_classes (e : Err)
+    (h : ∀ d f i, e ≠ .tokenRequired d f i) : e.WF = true := by
+  cases e <;> first | rfl | exact absurd rfl (h _ _ _)
+
+/-- with a (non-empty) file name every rendered line starts with `<file name>: `; the last line
+is the prefixed message -/
+theorem C16_render_filename (e : Err) (hwf : e.WF = true) (pre f : Str)
+    (hf : e.getFilename = some f) (hne : f ≠ []) :
+    ∃ lines : List Str, formatErrorLines e pre = .ok lines ∧
+      (∀ l ∈ lines, (f ++ [':', ' ']).isPrefixOf l = true) ∧
+      lines.getLast? = some (f ++ [':', ' '] ++ (pre ++ e.str)) := by
+  obtain ⟨ctx, _, h2, _⟩ := C16_render_total e hwf pre
+  refine ⟨_, h2, ?_, ?_⟩
+  · intro l hl
+    obtain ⟨x, _, rfl⟩ := List.mem_map.mp hl
+    have : f.isEmpty = false := by cases f <;> simp_all
+    simp [withFile, hf, this]
+  · have : f.isEmpty = false := by cases f <;> simp_all
+    simp [List.map_append, withFile, hf, this]
+
+/-- without a file name (or with an empty one) the lines are not prefixed -/
+theorem C16_render_no_filename (e : Err) (hwf : e.WF = true) (pre : Str)
+    (hf : e.getFilename = none ∨ e.getFilename = some []) :
+    ∃ ctx : List Str, e.contextLines = .ok ctx ∧ formatErrorLines e pre = .ok (ctx ++ [pre ++ e.str]) := by
+  obtain ⟨ctx, h1, h2, _⟩ := C16_render_total e hwf pre
+  refine ⟨ctx, h1, ?_⟩
+  rw [h2]
+  have : withFile e.getFilename = id := by
+    funext l
+    rcases hf with h | h <;> simp [withFile, h]
+  simp [this]
+
+/-- every error value belongs to one of the classes the model lists (the list the harness
+compares with the classes enumerated from the source) -/
+theorem C16_every_class_listed (e : Err) : e.className ∈ classNames := by
+  cases e with
+  | plain c _ _ => cases c <;> simp [Err.className, PlainClass.name, classNames]
+  | syntaxErr c _ _ _ => cases c <;> simp [Err.className, SyntaxClass.name, classNames]
+  | _ => simp [Err.className, classNames]
+
+/-! ## the three reporting modes -/
+
+/-- Mode independence.  For a computation that performs the reports `e₁ … eₙ` (and then possibly
+fails with a fatal error):
+* capture mode (entered from ANY state, also inside another capture, strict or not) collects
+  exactly `[e₁ … eₙ]`, prints and raises nothing, and leaves the module state as it was;
+* non-strict mode prints the same `n` warnings in the same order and `error_code` is 2 iff
+  `n > 0` (otherwise unchanged);
+* strict mode raises `e₁` before anything else happens and changes nothing;
+the fatal error surfaces in every mode that gets to it.  All three are the `Spec.modes`. -/
+theorem C16_mode_independent (s : State E) (c : Comp E) :
+    (execCaptured s c = (s, some (Spec.modes c).collected, c.fatal)) ∧
+    (s.captured = none → s.strict = false →
+      exec s c = ({ s with errorCode := if c.reports.isEmpty then s.errorCode else 2 },
+                  (Spec.modes c).printed.map Obs.printed, c.fatal)) ∧
+    (s.captured = none → s.strict = true →
+      (exec s c).1 = s ∧ (exec s c).2.2 = (Spec.modes c).strictRaises ∧
+      printedOf (exec s c).2.1 = [] ∧ raisedOf (exec s c).2.1 = c.reports.take 1 ∧
+      raisedOf (exec s c).2.1 <+: (Spec.modes c).collected) := by
+  refine ⟨?_, ?_, ?_⟩
+  · simp only [execCaptured, exec, captureEnter, captureExit]
+    rw [execReports_captured c.reports _ [] rfl]
+    cases s
+    simp [Spec.modes]
+  · intro h1 h2
+    simp only [exec]
+    rw [execReports_nonstrict c.reports s h1 h2]
+    simp [Spec.modes]
+  · intro h1 h2
+    cases hr : c.reports with
+    | nil => simp [exec, hr, execReports, Spec.modes, printedOf, raisedOf]
+    | cons e es =>
+      simp only [exec, hr]
+      rw [execReports_strict e es s h1 h2]
+      simp [Spec.modes, hr, printedOf, raisedOf]
+
+/-- on a concrete computation with two problems: collected, printed, raised -/
+theorem C16_mode_independent_nonvacuous :
+    execCaptured (State.init : State Nat) { reports := [7, 8], fatal := none }
+      = (State.init, some [7, 8], none) ∧
+    exec ({ strict := false, errorCode := 0, captured := none } : State Nat) { reports := [7, 8], fatal := none }
+      = ({ strict := false, errorCode := 2, captured := none }, [.printed 7, .printed 8], none) ∧
+    exec (State.init : State Nat) { reports := [7, 8], fatal := none }
+      = (State.init, [.raised 7], some 7) := by decide
+
+/-- in non-strict mode the text that reaches stderr for each problem is its rendering with the
+`WARNING: ` prefix: defined for every (well-formed) error, ending in `WARNING: ` ++ `str(error)` -/
+theorem C16_warning_text (e : Err) (hwf : e.WF = true) :
+    ∃ ctx, formatErrorLines e warningPrefix
+      = .ok ((ctx ++ [warningPrefix ++ e.str]).map (withFile e.getFilename)) := by
+  obtain ⟨ctx, _, h, _⟩ := C16_render_total e hwf warningPrefix
+  exact ⟨ctx, h⟩
+
+/-- Exit status of the command line (`CommandLine.__call__`, run from a fresh module state):
+0 iff nothing was reported, 2 iff there were only warnings, 1 iff a pybtex error escaped; stderr
+carries one warning per report, in order, then the fatal error with the `ERROR: ` prefix. -/
+theorem C16_exit_status (s : State E) (c : Comp E) (h1 : s.captured = none) (h2 : s.errorCode = 0) :
+    (commandLine s c).2.2 = (Spec.modes c).status ∧
+    (commandLine s c).2.1 = c.reports.map (fun e => (false, e)) ++
+      (match c.fatal with
+       | some f => [(true, f)]
+       | none => []) := by
+  have h := (C16_mode_independent (setStrict s false) c).2.1 (by simp [setStrict, h1]) (by simp [setStrict])
+  have hp : ∀ l : List E, printedOf (l.map Obs.printed) = l := by
+    intro l
+    induction l with
+    | nil => rfl
+    | cons a l ih => simp [printedOf, ih]
+  simp only [commandLine]
+  rw [h]
+  cases hf : c.fatal with
+  | some f => simp [Spec.modes, hf, hp]
+  | none =>
+    simp only [Spec.modes, hf, hp, setStrict, h2]
+    cases c.reports <;> simp
+
+theorem C16_exit_status_nonvacuous :
+    (commandLine (State.init : State Nat) { reports := [], fatal := none }).2.2 = 0 ∧
+    (commandLine (State.init : State Nat) { reports := [1], fatal := none }).2.2 = 2 ∧
+    (commandLine (State.init : State Nat) { reports := [1], fatal := some 5 }).2
+      = ([(false, 1), (true, 5)], 1) := by decide
+
+/-! ## capture contexts -/
+
+/-- Leaving capture contexts restores reporting.  For every history `ops` in which each exit
+(normal or by an exception) matches an enter and every context is closed at the end — any nesting,
+any mixture of normal exits and aborts — run from ANY configuration (inside or outside other
+contexts):
+* the frames of the enclosing contexts are untouched;
+* `captured_errors` is back to what it was, extended (when it is a list) by exactly the reports
+  made directly at the level of the history, i.e. outside all of its own contexts: an enclosing
+  context goes on collecting, and outside any context `captured_errors` is `None` again;
+* `strict` is what the `set_strict_mode` calls made it, `error_code` is unchanged unless a
+  warning was printed (then 2). -/
+theorem C16_capture_restores (ops : List (Op E)) (hb : balanced ops = true) (c : Config E) :
+    (run c ops).1.saved = c.saved ∧
+    (run c ops).1.st.captured = extend c.st.captured (baseReports 0 ops) ∧
+    (run c ops).1.st.strict = finalStrict c.st.strict ops ∧
+    (run c ops).1.st.errorCode = (if (printedOf (run c ops).2).isEmpty then c.st.errorCode else 2) := by
+  have hd : depthAfter 0 ops = some 0 := by simpa [balanced] using hb
+  obtain ⟨top', h1, h2⟩ := run_stack ops 0 0 c [] c.st.captured c.saved hd rfl rfl
+  have : top' = [] := List.eq_nil_of_length_eq_zero h2
+  subst this
+  simp only [Config.full, List.nil_append, List.cons.injEq] at h1
+  exact ⟨h1.2, h1.1, run_strict ops c, run_errorCode ops c⟩
+
+theorem C16_capture_restores_nonvacuous :
+    balanced ([.enter, .report 1, .enter, .report 2, .abort, .report 3, .exit] : List (Op Nat)) = true ∧
+    run Config.init ([.enter, .report 1, .enter, .report 2, .abort, .report 3, .exit] : List (Op Nat))
+      = (Config.init, [.unit, .collected, .unit, .collected, .left (some [2]), .collected, .left (some [1, 3])]) := by
+  decide
+
+/-- outside any capture context: after any pattern of nested / aborted contexts has unwound
+`captured_errors` is `None` -/
+theorem C16_capture_restores_outside (ops : List (Op E)) (hb : balanced ops = true) (c : Config E)
+    (h : c.st.captured = none) : (run c ops).1.st.captured = none := by
+  rw [(C16_capture_restores ops hb c).2.1, h]; rfl
+
+/-- nested contexts compose: inside an enclosing context (`captured_errors` is a list `l`), after
+any balanced pattern of inner contexts the enclosing context has collected exactly the reports
+made directly in it, nothing was printed or raised meanwhile, `error_code` is untouched, and the
+next report is collected by the enclosing context too. -/
+theorem C16_capture_nested (ops : List (Op E)) (hb : balanced ops = true) (c : Config E)
+    (l : List E) (h : c.st.captured = some l) (e : E) :
+    (run c ops).1.st.captured = some (l ++ baseReports 0 ops) ∧
+    printedOf (run c ops).2 = [] ∧ raisedOf (run c ops).2 = [] ∧
+    (run c ops).1.st.errorCode = c.st.errorCode ∧
+    (run c (ops ++ [.report e])).1.st.captured = some (l ++ baseReports 0 ops ++ [e]) ∧
+    (run c (ops ++ [.report e])).2.getLast? = some .collected := by
+  have hd : depthAfter 0 ops = some 0 := by simpa [balanced] using hb
+  have hr := C16_capture_restores ops hb c
+  have hin := run_inside ops 0 0 c [] c.st.captured c.saved hd rfl rfl (by simp) (by simp [h])
+  have hcap : (run c ops).1.st.captured = some (l ++ baseReports 0 ops) := by
+    rw [hr.2.1, h]; rfl
+  refine ⟨hcap, hin.1, hin.2, ?_, ?_, ?_⟩
+  · rw [hr.2.2.2, hin.1]; rfl
+  · rw [run_append]
+    simp [run_cons, run_nil, step, report, hcap]
+  · rw [run_append]
+    simp [run_cons, run_nil, step, report, hcap]
+
+/-- one context, in isolation: entering, running any balanced body and leaving — normally or by
+an exception — yields exactly the reports made directly in the body and puts `captured_errors`
+and the frames of the enclosing contexts back EXACTLY as they were on entry. -/
+theorem C16_capture_context (body : List (Op E)) (hb : balanced body = true) (c : Config E)
+    (close : Op E) (hc : close = .exit ∨ close = .abort) :
+    (run c (.enter :: body ++ [close])).1.st.captured = c.st.captured ∧
+    (run c (.enter :: body ++ [close])).1.saved = c.saved ∧
+    (run c (.enter :: body ++ [close])).2.getLast? = some (.left (some (baseReports 0 body))) := by
+  have hr := C16_capture_restores body hb (step c .enter).1
+  have hcap : (run (step c .enter).1 body).1.st.captured = some (baseReports 0 body) := by
+    rw [hr.2.1]; simp [step, captureEnter, extend]
+  have hsv : (run (step c .enter).1 body).1.saved = c.st.captured :: c.saved := by
+    rw [hr.1]; simp [step, captureEnter]
+  rw [List.cons_append, run_cons, run_append]
+  generalize run (step c .enter).1 body = R at hsv hcap ⊢
+  rcases hc with rfl | rfl <;> simp [run_cons, run_nil, step, leave, hsv, hcap, captureExit]
+  all_goals
+    rw [← List.cons_append, List.getLast?_concat]
+
+/-- the reports made directly in the body of a context are determined by the body alone: what
+follows the matching exit does not matter (so `Spec.directBody` of the text after an `enter` is
+what `C16_capture_context` says the context yields) -/
+theorem C16_direct_body (body rest : List (Op E)) (hb : balanced body = true) (close : Op E)
+    (hc : close = .exit ∨ close = .abort) :
+    Spec.directBody (body ++ close :: rest) = baseReports 0 body := by
+  have hd : depthAfter 0 body = some 0 := by simpa [balanced] using hb
+  rw [Spec.directBody, baseReports_append body _ 0 0 hd]
+  rcases hc with rfl | rfl <;> simp [baseReports]
+
+/-- well-bracketed histories as a grammar -/
+inductive WellBracketed : List (Op E) → Prop where
+  | nil : WellBracketed []
+  | report (e : E) : WellBracketed [.report e]
+  | setStrict (b : Bool) : WellBracketed [.setStrict b]
+  | context (body : List (Op E)) : WellBracketed body → WellBracketed (.enter :: body ++ [.exit])
+  | aborted (body : List (Op E)) : WellBracketed body → WellBracketed (.enter :: body ++ [.abort])
+  | append (a b : List (Op E)) : WellBracketed a → WellBracketed b → WellBracketed (a ++ b)
+
+/-- every history of the grammar satisfies the decidable hypothesis of `C16_capture_restores`
+(proved by induction over well-bracketed histories) -/
+theorem C16_wellBracketed_balanced (ops : List (Op E)) (h : WellBracketed ops) : balanced ops = true := by
+  have key : ∀ d, depthAfter d ops = some d := by
+    induction h with
+    | nil => intro d; rfl
+    | report e => intro d; rfl
+    | setStrict b => intro d; rfl
+    | context body _ ih =>
+      intro d
+      simp only [depthAfter, List.cons_append]
+      rw [depthAfter_append body _ (d + 1) (d + 1) (ih (d + 1))]
+      rfl
+    | aborted body _ ih =>
+      intro d
+      simp only [depthAfter, List.cons_append]
+      rw [depthAfter_append body _ (d + 1) (d + 1) (ih (d + 1))]
+      rfl
+    | append a b _ _ iha ihb =>
+      intro d
+      rw [depthAfter_append a b d d (iha d)]
+      exact ihb d
+  simp [balanced, key 0]
+
+/-- Refinement to the reference semantics.  Started outside any capture context, in every
+history that never leaves a context it did not enter (contexts may still be open at the end),
+each report does what `Spec.reportObs` says from the nesting depth and the strict flag alone:
+collected inside a context, raised outside in strict mode, printed outside in non-strict mode;
+and `error_code` ends as `Spec.finalCode` says. -/
+theorem C16_history_refines_spec (ops : List (Op E)) (c : Config E) (d' : Nat)
+    (h1 : c.st.captured = none) (h2 : c.saved = []) (hd : depthAfter 0 ops = some d') :
+    reportsOnly (run c ops).2 = Spec.reportObs 0 c.st.strict ops ∧
+    (run c ops).1.saved.length = d' ∧
+    (run c ops).1.st.errorCode = Spec.finalCode c.st.errorCode (Spec.reportObs 0 c.st.strict ops) := by
+  have hc : Clean c := ⟨[], by simp [Config.full, h1, h2], by simp⟩
+  have := run_refines ops c d' hc (by simpa [h2] using hd)
+  simp only [h2, List.length_nil] at this
+  refine ⟨this.1, this.2.2, ?_⟩
+  rw [run_errorCode, Spec.finalCode, ← this.1, printedOf_reportsOnly]
+
+theorem C16_history_refines_spec_nonvacuous :
+    depthAfter 0 ([.report 1, .enter, .report 2, .setStrict false, .exit, .report 3, .enter] : List (Op Nat)) = some 1 ∧
+    Spec.reportObs 0 true ([.report 1, .enter, .report 2, .setStrict false, .exit, .report 3, .enter] : List (Op Nat))
+      = [.raised 1, .collected, .printed 3] := by decide
+
+/-! ## error_code -/
+
+/-- `error_code` only ever goes from its value to 2 and never back: along every history (any
+operations, well-bracketed or not) it is unchanged or 2, it is 2 as soon as a warning has been
+printed, and a longer history never has a smaller code (for codes ≤ 2, i.e. always in pybtex). -/
+theorem C16_error_code_monotone (a b : List (Op E)) (c : Config E) :
+    ((run c a).1.st.errorCode = c.st.errorCode ∨ (run c a).1.st.errorCode = 2) ∧
+    (printedOf (run c a).2 ≠ [] → (run c a).1.st.errorCode = 2) ∧
+    (c.st.errorCode ≤ 2 → (run c a).1.st.errorCode ≤ (run c (a ++ b)).1.st.errorCode ∧
+      (run c (a ++ b)).1.st.errorCode ≤ 2) := by
+  have ha := run_errorCode a c
+  have hab := run_errorCode b (run c a).1
+  refine ⟨?_, ?_, ?_⟩
+  · rw [ha]; split <;> simp
+  · intro h
+    rw [ha]
+    cases hp : printedOf (run c a).2 with
+    | nil => exact absurd hp h
+    | cons x xs => simp
+  · intro hle
+    rw [run_append]
+    simp only
+    rw [hab, ha]
+    split <;> split <;> omega
+
+theorem C16_error_code_monotone_nonvacuous :
+    (run Config.init ([.setStrict false, .report 1, .enter, .report 2, .exit] : List (Op Nat))).1.st.errorCode = 2 ∧
+    (run Config.init ([.setStrict false, .enter, .report 2, .exit] : List (Op Nat))).1.st.errorCode = 0 := by
+  decide
+
+/-! ## location -/
+
+/-- The location an error renders with is the one current when it was reported, whatever happens
+afterwards.  An error is BUILT from the mutable parse state (`.aux` context, scanner position) at
+the moment of the report and keeps a copy: in capture mode, after any continuation `h₂` of the
+history, the list holds first the errors built during `h₁` from the states current at their
+reports — the same values as if nothing had followed — then those of `h₂`. -/
+theorem C16_location_stable {σ : Type} (w : σ) (s : State E) (l : List E) (h : s.captured = some l)
+    (h₁ h₂ : List (WOp σ E)) :
+    (runWorld w s (h₁ ++ h₂)).2.1.captured
+      = some (l ++ builtErrors w h₁ ++ builtErrors (worldAfter w h₁) h₂) ∧
+    (runWorld w s h₁).2.1.captured = some (l ++ builtErrors w h₁) := by
+  constructor
+  · rw [(runWorld_captured (h₁ ++ h₂) w s l h).2, builtErrors_append]
+    simp
+  · rw [(runWorld_captured h₁ w s l h).2]
+
+/-- `.aux` instance: an error reported on line 3 still renders with file name, line number and
+the marked line after the parser has moved on and finally cleared its context (`parse_file`'s
+epilogue); likewise a `TokenRequired` keeps the position the scanner had. -/
+theorem C16_location_stable_nonvacuous :
+    let ctx0 : AuxContext := { filename := some "a.aux".toList, lineno := none, line := none }
+    let hist : List (WOp AuxContext Err) :=
+      [.mutate fun c => { c with lineno := some 3, line := some "\\bibstyle{x}".toList },
+       .report (mkAuxError "illegal, another \\bibstyle command".toList),
+       .mutate fun c => { c with lineno := some 4, line := some "\\relax".toList },
+       .mutate fun c => { c with lineno := none, line := none }]
+    ((runWorld ctx0 { strict := true, errorCode := 0, captured := some [] } hist).2.1.captured.map
+        fun es => es.map fun e => formatErrorLines e errorPrefix)
+      = some [.ok ["a.aux: \\bibstyle{x}".toList, "a.aux: ^^^^^^^^^^^^".toList,
+                   "a.aux: ERROR: in line 3: illegal, another \\bibstyle command".toList]] := by
+  decide +kernel
+
+/-- rendering reads the error value only: two errors built from the same parse state are
+rendered alike, whatever the parser does later (there is no other input) -/
+theorem C16_location_snapshot (msg : Str) (ctx : AuxContext) (d : Str) (p : ScanState) :
+    (mkAuxError msg ctx).getFilename = ctx.filename ∧
+    (mkAuxError msg ctx).str =
+      (match ctx.lineno with
+       | some n => if n = 0 then [] else "in line ".toList ++ natStr n ++ ": ".toList
+       | none => []) ++ msg ∧
+    (mkTokenRequired d p).getFilename = p.filename ∧
+    (mkTokenRequired d p).str = syntaxStr "syntax error".toList p.lineno (d ++ " expected".toList) := by
+  refine ⟨rfl, rfl, rfl, rfl⟩
+
+/-! ## the two exception classes that are not pybtex errors -/
+
+/-- `BibTeXNameFormatError` is unreachable: format letters that pass `check_format_chars` (which
+raises a `PybtexSyntaxError` otherwise) are accepted by `NamePart.__init__`, and the format
+character it stores is one of `f l v j` (no `KeyError` in `NamePart.format`).  `SkipEntry` never
+leaves `parse_bibliography`: the loop body turns it into "nothing yielded, nothing reported". -/
+theorem C16_no_foreign_exception (already : Bool) (value : Str)
+    (h : checkFormatChars already value = true) :
+    (∃ a abbr, namePartInit value = some (a, abbr) ∧ a ∈ formatLetters) ∧
+    (guardCommand (CmdOutcome.skipEntry : CmdOutcome Unit) = (none, none)) := by
+  refine ⟨?_, rfl⟩
+  simp only [checkFormatChars, namePartInit] at h ⊢
+  generalize lower value = v at h ⊢
+  match v with
+  | [] => simp at h
+  | [a] =>
+    refine ⟨a, true, rfl, ?_⟩
+    simp at h
+    simpa using h.2
+  | [a, b] =>
+    simp at h
+    obtain ⟨_, h1, h2⟩ := h
+    subst h1
+    exact ⟨a, false, by simp, by simpa using h2⟩
+  | _ :: _ :: _ :: _ => simp at h
+
+theorem C16_no_foreign_exception_nonvacuous :
+    checkFormatChars false "fF".toList = true ∧ namePartInit "fF".toList = some ('f', false) ∧
+    checkFormatChars false "fg".toList = false ∧ checkFormatChars true "f".toList = false := by
+  decide
+
 end Pybtex.Props
